@@ -1,6 +1,6 @@
 //vp:property C18
 //vp:pkg ./tsdb
-//vp:roots ./tsdb/index ./storage ./tsdb/chunks
+//vp:roots ./tsdb/index ./storage ./tsdb/chunks ./model/labels
 //vp:bounds headIndexReader.ShardedPostings over a head holding 3 series with arbitrary 64-bit shard hashes, arbitrary shardCount >= 1 and shardIndex < shardCount, postings listing any subset of the series plus an unknown reference
 //vp:assume the per-series shard hash is an arbitrary uint64 (the stable label hash itself - its equality across the three label builds - is not decided here)
 package tsdb
@@ -8,6 +8,7 @@ package tsdb
 import (
 	"log/slog"
 
+	"github.com/prometheus/prometheus/model/labels"
 	"github.com/prometheus/prometheus/storage"
 	"github.com/prometheus/prometheus/tsdb/chunks"
 	"github.com/prometheus/prometheus/tsdb/index"
@@ -22,7 +23,7 @@ func vpH_C18_shard_partition() {
 	hashes := make([]uint64, len(refs))
 	for i, r := range refs {
 		hashes[i] = vpUint64()
-		s := &memSeries{ref: r, shardHash: hashes[i]}
+		s := newMemSeries(labels.EmptyLabels(), r, hashes[i], true, false) // the real constructor stores the shard hash
 		h.series.series[h.series.refStripe(r)][r] = s
 	}
 	count := vpUint64()
